@@ -415,7 +415,14 @@ impl<B: MysqlShim<RW>, RW: Read + Write> MysqlIntermediary<B, RW> {
         let mut stmts: HashMap<u32, _> = HashMap::new();
         while let Some((seq, packet)) = self.rw.next()? {
             self.rw.set_seq(seq.wrapping_add(1));
-            let cmd = commands::parse(&packet).unwrap().1;
+            let cmd = commands::parse(&packet)
+                .map_err(|e| {
+                    io::Error::new(
+                        io::ErrorKind::InvalidData,
+                        format!("unknown or malformed command: {:?}", e),
+                    )
+                })?
+                .1;
             match cmd {
                 Command::Query(q) => {
                     if q.starts_with(b"SELECT @@") || q.starts_with(b"select @@") {
